@@ -19,6 +19,9 @@ import (
 	"sort"
 	"strconv"
 	"strings"
+	"sync"
+	"sync/atomic"
+	"time"
 
 	"github.com/zeromicro/go-zero/core/mapping"
 	"github.com/zeromicro/go-zero/rest/httpx"
@@ -83,6 +86,21 @@ type KV struct {
 	V Doc    `json:"v"`
 }
 
+// Conc describes overlapping calls.
+//
+//	kind "canon": all steps go through ONE Unmarshaler built here with WithCanonicalKeyFunc; the key
+//	  function is the gate: the goroutine making its Park-th invocation is held there (that is step 0,
+//	  started alone), the other steps then run to completion, then step 0 is released.
+//	kind "free": every step runs its own entry point (the package-level unmarshalers of mapping / rest)
+//	  in its own goroutine, all released together.
+type Conc struct {
+	Kind    string `json:"kind"`
+	Park    int    `json:"park"`
+	Tag     string `json:"tag"`     // canon: tag key
+	StrVals bool   `json:"strvals"` // canon: WithStringValues (header style); else document values
+	Lower   bool   `json:"lower"`   // canon: keys are lower-cased (conf style) instead of MIME-canonicalised
+}
+
 // ParseReq is one HTTP request for httpx.Parse: path variables, query (or posted form)
 // parameters, headers and a body at once.
 type ParseReq struct {
@@ -117,6 +135,7 @@ type Case struct {
 	Static    string    `json:"static"`    // "self": the target is the declared type selfReq (it validates itself)
 	Entries   *Doc      `json:"entries"`   // mode "scribble": what the caller stores in the map it got back
 	Mutate    bool      `json:"mutate"`    // after the call the caller overwrites every reference-typed part of ITS target
+	Conc      *Conc     `json:"conc"`      // mode "seq": the steps are calls that OVERLAP (see runConc)
 	// sequences
 	Steps  []Case `json:"steps"`
 	Procs1 bool   `json:"procs1"` // run the sequence under GOMAXPROCS(1)
@@ -783,12 +802,169 @@ func runCase(c Case) (out Out) {
 	return runStep(c, nil)
 }
 
+// runConc: overlapping calls, each reported like a call of its own.
+func runConc(c Case) (out Out) {
+	out.ID = c.ID
+	out.Steps = make([]Out, len(c.Steps))
+	if c.Conc.Kind == "free" {
+		var wg sync.WaitGroup
+		start := make(chan struct{})
+		for i := range c.Steps {
+			wg.Add(1)
+			go func(i int) {
+				defer wg.Done()
+				st := c.Steps[i]
+				st.ID = i
+				<-start
+				out.Steps[i] = runStep(st, nil)
+			}(i)
+		}
+		close(start)
+		wg.Wait()
+		for i, o := range out.Steps {
+			if o.Fail != "" {
+				out.Fail = fmt.Sprintf("step %d: %s", i, o.Fail)
+				return
+			}
+		}
+		out.Verdict = "seq"
+		return
+	}
+	canon := textproto.CanonicalMIMEHeaderKey
+	if c.Conc.Lower {
+		canon = strings.ToLower
+	}
+	var calls int32
+	armed := int32(1) // the gate is for step 0 only: disarmed once step 0 has parked or finished
+	parked := make(chan struct{})
+	release := make(chan struct{})
+	keyfn := func(k string) string {
+		if int(atomic.AddInt32(&calls, 1)) == c.Conc.Park && atomic.LoadInt32(&armed) == 1 {
+			close(parked)
+			select {
+			case <-release:
+			case <-time.After(20 * time.Second):
+			}
+		}
+		return canon(k)
+	}
+	opts := []mapping.UnmarshalOption{mapping.WithCanonicalKeyFunc(keyfn)}
+	if c.Conc.StrVals {
+		opts = append(opts, mapping.WithStringValues())
+	}
+	u := mapping.NewUnmarshaler(c.Conc.Tag, opts...)
+	type job struct {
+		target reflect.Value
+		m      map[string]any
+	}
+	jobs := make([]job, len(c.Steps))
+	for i := range c.Steps {
+		st := &c.Steps[i]
+		rt, err := build(c.Conc.Tag, &st.Type)
+		if err != nil {
+			out.Fail = "build type: " + err.Error()
+			return
+		}
+		m := map[string]any{}
+		if c.Conc.StrVals {
+			sm, _, err := stringMap(st.Doc)
+			if err != nil {
+				out.Fail = "doc: " + err.Error()
+				return
+			}
+			for k, v := range sm {
+				if len(v) == 1 {
+					m[canon(k)] = v[0]
+				} else {
+					m[canon(k)] = v
+				}
+			}
+		} else {
+			x, err := toAny(st.Doc)
+			if err != nil {
+				out.Fail = "doc: " + err.Error()
+				return
+			}
+			mm, ok := x.(map[string]any)
+			if !ok {
+				out.Fail = "conc needs object documents"
+				return
+			}
+			m = mm
+		}
+		jobs[i] = job{reflect.New(rt), m}
+	}
+	run := func(i int) (o Out) {
+		o.ID = i
+		defer func() {
+			if p := recover(); p != nil {
+				o.Verdict = "panic"
+				o.Err = fmt.Sprint(p)
+			}
+		}()
+		if err := u.Unmarshal(jobs[i].m, jobs[i].target.Interface()); err != nil {
+			o.Verdict = "error"
+			o.Err = err.Error()
+			if len(o.Err) > 300 {
+				o.Err = o.Err[:300]
+			}
+			return
+		}
+		o.Verdict = "ok"
+		o.Val = dump(jobs[i].target.Elem())
+		o.Alias = aliased(jobs[i].target.Elem(), "", map[uintptr]string{})
+		return
+	}
+	done0 := make(chan Out, 1)
+	go func() { done0 <- run(0) }()
+	finished0 := false
+	select {
+	case <-parked:
+	case o := <-done0:
+		out.Steps[0] = o
+		finished0 = true
+	case <-time.After(20 * time.Second):
+		out.Fail = "step 0 neither parked nor finished"
+		return
+	}
+	atomic.StoreInt32(&armed, 0)
+	for i := 1; i < len(c.Steps); i++ {
+		di := make(chan Out, 1)
+		go func(i int) { di <- run(i) }(i)
+		select {
+		case out.Steps[i] = <-di:
+		case <-time.After(10 * time.Second):
+			// the call waits for the parked one (a lock held across the key function): let it go on
+			select {
+			case <-release:
+			default:
+				close(release)
+			}
+			out.Steps[i] = <-di
+			out.Steps[i].Tag = "blocked-behind-the-parked-call"
+		}
+	}
+	select {
+	case <-release:
+	default:
+		close(release)
+	}
+	if !finished0 {
+		out.Steps[0] = <-done0
+	}
+	out.Verdict = "seq"
+	return
+}
+
 func runStep(c Case, sq *seqState) (out Out) {
 	out.ID = c.ID
 	if c.Mode == "seq" {
 		if c.Procs1 {
 			old := runtime.GOMAXPROCS(1)
 			defer runtime.GOMAXPROCS(old)
+		}
+		if c.Conc != nil {
+			return runConc(c)
 		}
 		sq = &seqState{seen: map[uintptr]string{}}
 		for i, st := range c.Steps {
